@@ -319,7 +319,7 @@ func ruleS3(c *an.Ctx) {
 		c.Undecided("S3", "params(checkSrc, readOnly)", fn.Pos(), "parameters not found")
 		return
 	}
-	isCheckSrcFalse := func(r an.Rel) bool { return r.Op == token.ILLEGAL && !r.Truth && r.X == ssa.Value(checkSrc) }
+	isCheckSrcFalse := func(r an.Rel) bool { return r.Op == token.ILLEGAL && !r.Truth && an.ParamOf(r.X) == checkSrc }
 	isCallTrue := func(r an.Rel, pkg, name string) bool {
 		if r.Op != token.ILLEGAL || !r.Truth {
 			return false
@@ -394,10 +394,29 @@ func ruleS3(c *an.Ctx) {
 					bad := findFrom(s, func(in ssa.Instruction) bool {
 						ret, ok := in.(*ssa.Return)
 						return ok && len(ret.Results) == 2 && !an.IsNil(an.RetVal(ret, 1))
-					}, func(in ssa.Instruction) bool { return an.CalleeIs(in, unlock) },
+					}, func(in ssa.Instruction) bool {
+						if an.CalleeIs(in, unlock) {
+							return true
+						}
+						// a local closure that gives the lock back unless read-only
+						// (release := func() { if !readOnly { pipestance.Unlock() } })
+						if cl := an.AsCallAny(in); cl != nil {
+							if g := cl.Common().StaticCallee(); g != nil && g.Parent() == fn && g.Blocks != nil {
+								w := an.Query{Fn: g, Target: an.IsReturn,
+									Barrier: func(x ssa.Instruction) bool { return an.CalleeIs(x, unlock) },
+									BarrierEdge: func(from, to *ssa.BasicBlock) bool {
+										return an.EdgeHolds(from, to, func(r an.Rel) bool {
+											return r.Op == token.ILLEGAL && r.Truth && an.ParamOf(r.X) == readOnly
+										})
+									}}.Find()
+								return w == nil
+							}
+						}
+						return false
+					},
 						func(from, to *ssa.BasicBlock) bool {
 							return an.EdgeHolds(from, to, func(r an.Rel) bool {
-								return r.Op == token.ILLEGAL && r.Truth && r.X == ssa.Value(readOnly)
+								return r.Op == token.ILLEGAL && r.Truth && an.ParamOf(r.X) == readOnly
 							})
 						})
 					c.Check("S3", "refusal-unlocks", call.Pos(), !bad,
@@ -457,9 +476,22 @@ func ruleS4(c *an.Ctx) {
 			return ok
 		})
 		c.Check("S4", "handler-registered-before-lock@(*Pipestance).Lock", in.Pos(), ok, "the signal handler that removes the lock must be registered before the lock is written; "+c.WitnessString(w2))
-		ok3, w3 := an.MustPass(lock, nil, func(x ssa.Instruction) bool { return x == in }, func(x ssa.Instruction) bool {
+		isLoad := func(x ssa.Instruction) bool {
 			call := an.AsCall(x)
 			return call != nil && call.Common().StaticCallee() != nil && call.Common().StaticCallee().Name() == "loadCache"
+		}
+		loader := &an.MustDo{Pred: isLoad, Depth: 1}
+		ok3, w3 := an.MustPass(lock, nil, func(x ssa.Instruction) bool { return x == in }, func(x ssa.Instruction) bool {
+			if isLoad(x) {
+				return true
+			}
+			// a predicate of the package that rescans the directory itself (lockFilePresent)
+			if call := an.AsCall(x); call != nil {
+				if h := call.Common().StaticCallee(); h != nil && h.Blocks != nil && h.Pkg == lock.Pkg {
+					return loader.Fn(h)
+				}
+			}
+			return false
 		})
 		c.Check("S4", "cache-loaded-before-lock-test@(*Pipestance).Lock", in.Pos(), ok3, "the directory must be (re)read before testing for an existing lock; "+c.WitnessString(w3))
 	})
